@@ -140,16 +140,15 @@ Section RecvProofs.
       rewrite Hk. reflexivity.
   Qed.
 
-  (* with keys, a record that reaches try_decrypt in epoch 0 can only be a handshake-phase
-     ChangeCipherSpec / Handshake / Heartbeat record: this is the discard rule, and the point where the
-     proofs depend on the regenerated flag rx_drop_epoch0 *)
+  (* with keys, a record that reaches try_decrypt in epoch 0 can only be the peer's ChangeCipherSpec during the
+     handshake: this is the discard rule, and the point where the proofs depend on the regenerated flags *)
   Lemma not_dropped_epoch0 (st : rx H) r k :
     rx_keys st = Some k -> r_epoch r = RX_PLAIN_EPOCH -> drop_rule st r = false ->
-    rx_state st = Handshaking /\ r_type r <> ContentType_ApplicationData /\ r_type r <> ContentType_Alert.
+    rx_state st = Handshaking /\ r_type r = ContentType_ChangeCipherSpec.
   Proof.
     intros Hk He. unfold drop_rule, rx_drop_epoch0, RX_DROP_EPOCH, rx_drop_types_handshaking.
     rewrite Hk. unfold RX_PLAIN_EPOCH in He. rewrite He. cbn [is_some]. rewrite orb_true_r. cbn [andb Z.eqb].
-    destruct (rx_state st), (r_type r); cbn; intros E; try discriminate; repeat split; discriminate.
+    destruct (rx_state st), (r_type r); cbn; intros E; try discriminate; split; reflexivity.
   Qed.
 
   (* (A) a payload reaches the upper layer only out of an authenticated ApplicationData record *)
@@ -161,11 +160,11 @@ Section RecvProofs.
     destruct (drop_rule st r) eqn:Ed; [intros []|].
     unfold try_decrypt. rewrite Hk.
     destruct (r_epoch r =? RX_PLAIN_EPOCH) eqn:Ee.
-    - apply Z.eqb_eq in Ee. destruct (not_dropped_epoch0 st r k Hk Ee Ed) as [_ [Hna _]].
+    - apply Z.eqb_eq in Ee. destruct (not_dropped_epoch0 st r k Hk Ee Ed) as [_ Hccs].
       destruct (dispatch H hs_step is_client st (r_type r) (r_payload r)) as [[st1 out] e] eqn:Edis.
       intros Hin. assert (Hin' : In p out) by (destruct e; exact Hin).
       pose proof (dispatch_out is_client st (r_type r) (r_payload r) p) as Ho. rewrite Edis in Ho.
-      destruct (Ho Hin') as [Ht _]. contradiction.
+      destruct (Ho Hin') as [Ht _]. rewrite Hccs in Ht. discriminate.
     - apply Z.eqb_neq in Ee. destruct (rec_open open is_client k r) as [p0|] eqn:Eo; [|intros []].
       destruct (dispatch H hs_step is_client st (r_type r) p0) as [[st1 out] e] eqn:Edis.
       intros Hin. assert (Hin' : In p out) by (destruct e; exact Hin).
@@ -183,7 +182,7 @@ Section RecvProofs.
     destruct (drop_rule st r) eqn:Ed; [cbn [rs_state]; intros Hne; contradiction|].
     unfold try_decrypt. rewrite Hk.
     destruct (r_epoch r =? RX_PLAIN_EPOCH) eqn:Ee.
-    - apply Z.eqb_eq in Ee. destruct (not_dropped_epoch0 st r k Hk Ee Ed) as [_ [_ Hna]]. contradiction.
+    - apply Z.eqb_eq in Ee. destruct (not_dropped_epoch0 st r k Hk Ee Ed) as [_ Hccs]. rewrite Hccs in Ht. discriminate.
     - apply Z.eqb_neq in Ee. destruct (rec_open open is_client k r) as [p0|] eqn:Eo; [|cbn [rs_state]; intros Hne; contradiction].
       rewrite Ht. unfold dispatch.
       destruct (_ && _); cbn [rs_state]; intros Hne; [|contradiction].
@@ -219,11 +218,10 @@ Section RecvProofs.
   Qed.
 
   (* (C) an unauthenticated record is inert: once the handshake is over whatever its content type; while the
-     last flight is still in progress for every type that is not a handshake-protocol record *)
+     last flight is still in progress everything except the peer's epoch-0 ChangeCipherSpec *)
   Theorem unauthentic_inert : forall is_client st r k,
     rx_keys st = Some k -> unauthentic is_client k r ->
-    (rx_state st <> Handshaking \/
-     (r_type r <> ContentType_Handshake /\ r_type r <> ContentType_ChangeCipherSpec)) ->
+    (rx_state st <> Handshaking \/ r_type r <> ContentType_ChangeCipherSpec) ->
     rs_state (record_step open H hs_step is_client st r) = st /\
     rs_out (record_step open H hs_step is_client st r) = [] /\
     rs_err (record_step open H hs_step is_client st r) = false.
@@ -232,10 +230,88 @@ Section RecvProofs.
     destruct (drop_rule st r) eqn:Ed; [repeat split|].
     unfold try_decrypt. rewrite Hk.
     destruct (r_epoch r =? RX_PLAIN_EPOCH) eqn:Ee.
-    - apply Z.eqb_eq in Ee. destruct (not_dropped_epoch0 st r k Hk Ee Ed) as [Hs [Hna Hnl]].
-      destruct Hwhen as [Hw|[Hnh Hnc]]; [contradiction|].
-      destruct (r_type r); try contradiction. cbn [dispatch rs_state rs_out rs_err]. repeat split.
+    - apply Z.eqb_eq in Ee. destruct (not_dropped_epoch0 st r k Hk Ee Ed) as [Hs Hccs].
+      destruct Hwhen as [Hw|Hw]; contradiction.
     - apply Z.eqb_neq in Ee. destruct Hun as [E|E]; [contradiction|]. rewrite E. repeat split.
+  Qed.
+
+  (* the one exception, exactly: an epoch-0 ChangeCipherSpec while still Handshaking advances the read-epoch
+     counter (saturating) and nothing else *)
+  Definition bump_read_epoch (st : rx H) : rx H :=
+    mkRx (rx_state st) (rx_keys st) (sat_u16 (rx_read_epoch st + 1)) (rx_hs st) (rx_alive st).
+  Theorem handshaking_ccs_effect : forall is_client (st : rx H) r k,
+    rx_keys st = Some k -> unauthentic is_client k r -> r_type r = ContentType_ChangeCipherSpec ->
+    rs_out (record_step open H hs_step is_client st r) = [] /\
+    rs_err (record_step open H hs_step is_client st r) = false /\
+    (rs_state (record_step open H hs_step is_client st r) = st \/
+     (rx_state st = Handshaking /\ r_epoch r = RX_PLAIN_EPOCH /\
+      rs_state (record_step open H hs_step is_client st r) = bump_read_epoch st)).
+  Proof.
+    intros is_client st r k Hk Hun Ht. unfold record_step.
+    destruct (drop_rule st r) eqn:Ed; [split; [reflexivity|split; [reflexivity|left; reflexivity]]|].
+    unfold try_decrypt. rewrite Hk.
+    destruct (r_epoch r =? RX_PLAIN_EPOCH) eqn:Ee.
+    - apply Z.eqb_eq in Ee. destruct (not_dropped_epoch0 st r k Hk Ee Ed) as [Hs _].
+      rewrite Ht. cbn [dispatch rs_out rs_err rs_state].
+      split; [reflexivity|split; [reflexivity|right; repeat split; assumption]].
+    - apply Z.eqb_neq in Ee. destruct Hun as [E|E]; [contradiction|]. rewrite E.
+      split; [reflexivity|split; [reflexivity|left; reflexivity]].
+  Qed.
+
+  (* hence: with keys, ANY change of the receiver by a record needs either that record to authenticate, or it
+     is the read-epoch bump of a handshake-phase ChangeCipherSpec. In particular the handshake machinery
+     (hs_step) is only ever run on authenticated records once keys exist. *)
+  Theorem change_needs_authentic : forall is_client (st : rx H) r k,
+    rx_keys st = Some k -> rs_state (record_step open H hs_step is_client st r) <> st ->
+    authentic open is_client k r \/
+    (rx_state st = Handshaking /\ r_epoch r = RX_PLAIN_EPOCH /\ r_type r = ContentType_ChangeCipherSpec /\
+     rs_state (record_step open H hs_step is_client st r) = bump_read_epoch st).
+  Proof.
+    intros is_client st r k Hk Hne.
+    destruct (Z.eq_dec (r_epoch r) RX_PLAIN_EPOCH) as [Ee|Ee].
+    - right. assert (Hun : unauthentic is_client k r) by (left; exact Ee).
+      destruct (ContentType_eqb (r_type r) ContentType_ChangeCipherSpec) eqn:Et.
+      + assert (Ht : r_type r = ContentType_ChangeCipherSpec) by (destruct (r_type r); try discriminate; reflexivity).
+        destruct (handshaking_ccs_effect is_client st r k Hk Hun Ht) as [_ [_ [E|[Hs [_ E]]]]]; [contradiction|].
+        repeat split; assumption.
+      + exfalso. apply Hne.
+        assert (Hn : r_type r <> ContentType_ChangeCipherSpec) by (intros E; rewrite E in Et; discriminate).
+        exact (proj1 (unauthentic_inert is_client st r k Hk Hun (or_intror Hn))).
+    - destruct (rec_open open is_client k r) as [p|] eqn:Eo.
+      + left. split; [exact Ee|]. exists p. exact Eo.
+      + exfalso. apply Hne. revert Hne. unfold record_step.
+        assert (Ed : drop_rule st r = false).
+        { unfold drop_rule, RX_DROP_EPOCH. unfold RX_PLAIN_EPOCH in Ee.
+          destruct (r_epoch r =? 0) eqn:E0; [apply Z.eqb_eq in E0; contradiction|]. rewrite andb_false_r. reflexivity. }
+        rewrite Ed. unfold try_decrypt. rewrite Hk, Eo.
+        destruct (r_epoch r =? RX_PLAIN_EPOCH) eqn:E1; [apply Z.eqb_eq in E1; contradiction|]. reflexivity.
+  Qed.
+
+  (* replay: the receiver keeps no per-record state at all -- an authenticated ApplicationData record is
+     delivered and leaves the receiver exactly as it was, so presenting it again delivers it again *)
+  Theorem authentic_app_step : forall is_client (st : rx H) r k p,
+    rx_keys st = Some k -> r_type r = ContentType_ApplicationData -> r_epoch r <> RX_PLAIN_EPOCH ->
+    rec_open open is_client k r = Some p ->
+    record_step open H hs_step is_client st r = Next st [p].
+  Proof.
+    intros is_client st r k p Hk Ht Ee Eo. unfold record_step.
+    assert (Ed : drop_rule st r = false).
+    { unfold drop_rule, RX_DROP_EPOCH. unfold RX_PLAIN_EPOCH in Ee.
+      destruct (r_epoch r =? 0) eqn:E0; [apply Z.eqb_eq in E0; contradiction|]. rewrite andb_false_r. reflexivity. }
+    rewrite Ed. unfold try_decrypt. rewrite Hk, Eo.
+    destruct (r_epoch r =? RX_PLAIN_EPOCH) eqn:E1; [apply Z.eqb_eq in E1; contradiction|].
+    rewrite Ht. reflexivity.
+  Qed.
+
+  (* a datagram that holds only part of a record (truncated, split across datagrams, length field larger
+     than what follows) or starts with an invalid content type has no effect whatsoever *)
+  Theorem partial_datagram_inert : forall is_client (st : rx H) data,
+    decode data = Ok None \/ decode data = Err ->
+    recv_datagram open H hs_step is_client st data = (st, []).
+  Proof.
+    intros is_client st data Hd. unfold recv_datagram. destruct (rx_alive st); [|reflexivity].
+    cbn [records_fuel]. destruct data as [|b data]; [reflexivity|].
+    destruct Hd as [E|E]; rewrite E; reflexivity.
   Qed.
 
   Lemma record_step_keys is_client st r k :
